@@ -1,0 +1,18 @@
+//go:build verif
+
+package tarext
+
+// Machine-checked contracts (comment-only; compiled to nothing). Checked by /verif/bin/stfsvc.
+
+//@ func NewTapeWriter
+//@   property C05
+//@   modifies *
+//@   result cleanup is TapeCleanup
+//@   ensures err == nil && tw != nil && cleanup != nil
+
+//@ func NewTapeWriter$1
+//@   property C05
+//@   conforms TapeCleanup
+//@   modifies *, trailers
+//@   ghostset trailers := ite(result == nil, old(trailers) + 1, old(trailers))
+//@   at call Close#1 assert [trailer-only-if-dirty] deref(dirty)
